@@ -116,7 +116,7 @@ Qed.
 (* ---------- stack_push ---------- *)
 Lemma psim_push (C : Prop) q a emit p sg r : prog_valid q -> psim C q a emit p sg r ->
   psim C (PStackPush q) a emit p sg
-    (match r with SMatch q' sg2 f2 => SMatch q' (firstn (q' - p) (skipn p w) :: sg2) f2 | x => x end).
+    (match r with SMatch q' sg2 f2 => SMatch q' (firstn (q' - p) (skipn p w) :: sg2) f2 | SFail => SFail | SFuel => SFuel end).
 Proof.
   intros V H N s R.
   assert (N1 : r <> SFuel) by (intros ->; apply N; reflexivity).
